@@ -1153,6 +1153,9 @@ class Tensor:
                     or (op_out is parent_data)
                 ):
                     if parent_var._base is not None and parent_var._creator is None:
+                        # `parent_var` is a disconnected view; it keeps its gradient
+                        # when its lingering base reference is dropped
+                        parent_var._grad = parent_var.grad
                         parent_var._base = None
 
                     base = parent_var if parent_var.base is None else parent_var.base
